@@ -23,7 +23,9 @@ ContentOK(st, ev) == ev.any \/ st.start \in Rng(ev.cand)
 
 TReset ==
   /\ Is("Reset")
-  /\ cfg' = Ev.cfg /\ fr' = Ev.fr /\ s' = S0
+  /\ cfg' = Ev.cfg /\ fr' = Ev.fr
+  \* raw garbage streams (C07): only the monitors decide, the model is not consulted
+  /\ s' = IF Ev.raw THEN [S0 EXCEPT !.wild = TRUE] ELSE S0
   /\ Adv
 
 TNR ==
